@@ -6,6 +6,7 @@
 -/
 import Pdt.Props.C01Gen
 import Pdt.Props.C01Window
+import Pdt.Props.C01Ord
 
 namespace Pdt.C06
 open Pdt Pdt.Spec Pdt.Sql Pdt.C01
@@ -340,5 +341,14 @@ theorem sql_refines_spec_join_window {c : Ast} {sc : List Uid} (h : JFrag c sc) 
     ∃ r n', compile (.mutate i c (L.map (·.1)) (L.map (·.2.2)) (L.map (·.2.1)) metas) needed = .ok (r, n') ∧
       Sql.run db r = (Spec.run db (.mutate i c (L.map (·.1)) (L.map (·.2.2)) (L.map (·.2.1)) metas)).frame :=
   sql_refines_spec_mutate_any h.base db i L metas hv hna hfresh hnd needed
+
+
+/-- `t1 JOIN t2 … >> arrange(keys) >> slice_head(n, offset)`: `… ORDER BY keys LIMIT n OFFSET offset` returns the same rows
+    in the same sequence as the reference semantics -/
+theorem sql_refines_spec_join_ordered {c : Ast} {sc : List Uid} (h : JFrag c sc) (db : DB) (i k : NodeId) (ords : List Ord)
+    (he : isEwiseOrds ords = true) (hu : ∀ u ∈ Expr.uidsList (ords.map (·.1)), u ∈ sc) (n off : Int) (needed : Needed) :
+    ∃ r n', compile (.sliceHead k (.arrange i c ords) n off) needed = .ok (r, n') ∧
+      Sql.run db r = (Spec.run db (.sliceHead k (.arrange i c ords) n off)).frame :=
+  sql_refines_spec_ordered (OFrag.slice k n off (OFrag.arrange i ords (fun db needed => jfrag_refines h db needed) he hu)) db needed
 
 end Pdt.C06
